@@ -19,6 +19,8 @@ pub enum V {
     Slice(Option<SliceV>),
     Ptr(Option<Arc<Mutex<V>>>),
     Func(Option<Arc<str>>),
+    /// a method value `x.m`: the method's item and the receiver it was taken from
+    Bound(usize, Box<V>),
     Iface(Option<Box<(Ty, V)>>),
     Opaque,
 }
@@ -268,16 +270,25 @@ impl Interp {
     }
 
     pub fn call_func(&mut self, name: &str, args: Vec<V>) -> R<Option<V>> {
+        let prog = self.prog.clone();
+        let Some(&idx) = prog.funcs.get(name) else {
+            return unsup(format!("call of unknown function {}", name));
+        };
+        self.call_item(idx, None, args)
+    }
+
+    /// a function, or a method with its receiver
+    pub fn call_item(&mut self, idx: usize, recv: Option<V>, args: Vec<V>) -> R<Option<V>> {
         self.tick()?;
         if self.frames.len() > 2000 {
             return unsup("go call depth > 2000");
         }
         let prog = self.prog.clone();
-        let Some(&idx) = prog.funcs.get(name) else {
-            return unsup(format!("call of unknown function {}", name));
-        };
         let Item::Func(f) = &prog.file.items[idx] else { unreachable!() };
         let mut fr = Frame::new();
+        if let (Some(p), Some(v)) = (&f.recv, recv) {
+            fr.vars.push((Arc::from(p.name.as_str()), v));
+        }
         for (p, a) in f.params.iter().zip(args.into_iter()) {
             fr.vars.push((Arc::from(p.name.as_str()), a));
         }
@@ -626,6 +637,10 @@ impl Interp {
                         let V::Struct(_, fs) = &*g else { return unsup("field of non-struct") };
                         fs[idx].clone()
                     }
+                    V::Struct(ref n, _) if prog.methods.contains_key(&(n.to_string(), field.clone())) => {
+                        let item = prog.methods[&(n.to_string(), field.clone())];
+                        V::Bound(item, Box::new(ov.clone()))
+                    }
                     V::Struct(..) => {
                         let idx = field_index(&prog, &ov, field)?;
                         let V::Struct(_, mut fs) = ov else { unreachable!() };
@@ -868,6 +883,7 @@ impl Interp {
                 match fv {
                     V::Func(Some(name)) => self.call_func(&name, avs),
                     V::Func(None) => Err(Stop::Panic(PanicKind::NilDeref)),
+                    V::Bound(item, recv) => self.call_item(item, Some(*recv), avs),
                     _ => unsup("call of non-function value"),
                 }
             }
